@@ -288,7 +288,7 @@ func c28StoreGrid(rep *EnumReport, dir string) {
 // ---------------------------------------------------------------- part B: operations
 
 type c28Op struct {
-	Kind    string // poll | reqpoll | racepoll | connect | disconnect | clock | polltick | forcepoll | reopen
+	Kind    string // poll | reqpoll | racepoll | connect | disconnect | clock | polltick | sweeptick | forcepoll | reopen
 	Peer    int
 	Ver     int // offset to this node's protocol version
 	Variant int
@@ -320,12 +320,20 @@ func (o c28Op) class() string {
 
 func c28Alphabet(tier string) ([]c28Op, string) {
 	var ops []c28Op
+	if tier == "sweep" {
+		// around a cleanup sweep of an expired peer: connection changes in the seconds before it
+		for _, d := range []time.Duration{10 * time.Second, 40 * time.Second} {
+			ops = append(ops, c28Op{Kind: "clock", D: d})
+		}
+		ops = append(ops, c28Op{Kind: "connect", Peer: 0}, c28Op{Kind: "disconnect", Peer: 0}, c28Op{Kind: "polltick"}, c28Op{Kind: "sweeptick"})
+		return ops, "sweep: peer P only; clock steps of one poll interval and of 40 s, connect / disconnect, a manual poll pass, a manual cleanup sweep"
+	}
 	msg := func(kind string, peer, ver, variant int) { ops = append(ops, c28Op{Kind: kind, Peer: peer, Ver: ver, Variant: variant}) }
 	global := func() {
 		for _, d := range []time.Duration{11 * time.Second, 6 * time.Minute, 31 * time.Minute} {
 			ops = append(ops, c28Op{Kind: "clock", D: d})
 		}
-		ops = append(ops, c28Op{Kind: "polltick"}, c28Op{Kind: "forcepoll"}, c28Op{Kind: "reopen"})
+		ops = append(ops, c28Op{Kind: "polltick"}, c28Op{Kind: "forcepoll"}, c28Op{Kind: "reopen"}, c28Op{Kind: "sweeptick"})
 	}
 	if tier == "thorough" {
 		for _, v := range []int{-1, 0, 1} {
@@ -384,7 +392,13 @@ type c28Lightning struct {
 	ch        chan peersync.CustomMessage
 	gate      chan struct{}
 	pending   int
-	phase     string
+	// the poll pass started by the ticker at an instant where the cleanup ticker fires too is
+	// held at its first Lightning call until the driver has seen what the sweep does
+	manualSweep bool // the driver itself runs a sweep (hook VerifCleanupExpired): no gate
+	holdPoll    bool
+	pollGate    chan struct{}
+	pollPending int
+	phase       string
 	store     *peersync.Store
 	sends     []c28Send
 	tbl       map[int]time.Time // mirror of the poller's request table, used for state de-duplication only
@@ -408,7 +422,37 @@ func c28FromCleanup() bool {
 	}
 }
 
+func c28FromPollTicker() bool {
+	var pcs [32]uintptr
+	n := runtime.Callers(3, pcs[:])
+	frames := runtime.CallersFrames(pcs[:n])
+	for {
+		f, more := frames.Next()
+		if strings.HasSuffix(f.Function, ".runPollLoop") {
+			return true
+		}
+		if !more {
+			return false
+		}
+	}
+}
+
+// holdTickerPoll blocks the ticker's poll pass at its first Lightning call while the driver asks for it.
+func (l *c28Lightning) holdTickerPoll() {
+	l.mu.Lock()
+	if !l.holdPoll || !c28FromPollTicker() {
+		l.mu.Unlock()
+		return
+	}
+	l.holdPoll = false // only the first call of the pass
+	l.pollPending++
+	g := l.pollGate
+	l.mu.Unlock()
+	<-g
+}
+
 func (l *c28Lightning) SendCustomMessage(_ context.Context, to peersync.PeerID, typ messages.MessageType, payload []byte) error {
+	l.holdTickerPoll()
 	l.mu.Lock()
 	st := l.store
 	l.mu.Unlock()
@@ -453,7 +497,11 @@ func (l *c28Lightning) SubscribeCustomMessages(context.Context) (<-chan peersync
 func (l *c28Lightning) Stop() error { return nil }
 
 func (l *c28Lightning) ListPeers(context.Context) ([]peersync.PeerID, error) {
-	if c28FromCleanup() {
+	l.holdTickerPoll()
+	l.mu.Lock()
+	manual := l.manualSweep
+	l.mu.Unlock()
+	if c28FromCleanup() && !manual {
 		// the cleanup tick and the poll tick fire at the same instant every minute; the sweep
 		// is held here until the poll pass of that instant is over (deterministic order)
 		l.mu.Lock()
@@ -545,6 +593,8 @@ func (x *c28X) boot() error {
 	x.ln.mu.Lock()
 	x.ln.ch = make(chan peersync.CustomMessage)
 	x.ln.gate = make(chan struct{})
+	x.ln.pollGate = make(chan struct{})
+	x.ln.holdPoll, x.ln.pollPending = false, 0
 	x.ln.store = st
 	x.ln.phase = "initial"
 	x.ln.tbl = map[int]time.Time{}
@@ -563,6 +613,7 @@ func (x *c28X) boot() error {
 
 // stop ends the goroutines of the running PeerSync; closeStore also closes the bbolt file.
 func (x *c28X) stop(closeStore bool) {
+	x.releasePoll()
 	x.releaseCleanup()
 	x.cancel()
 	synctest.Wait()
@@ -610,9 +661,36 @@ func (x *c28X) advance(d time.Duration) {
 			x.releaseCleanup()
 			return
 		}
+		// at an instant where both tickers fire, the poll pass is held at its first Lightning
+		// call: a sweep that does not ask the node for the connected peers (and so never reaches
+		// its own gate) runs before it, with whatever it remembers; a sweep that asks is released
+		// after the poll pass, as before
+		both := next.Sub(x.startAt)%c28CleanupEvery == 0
+		if both {
+			x.ln.mu.Lock()
+			x.ln.holdPoll = true
+			x.ln.mu.Unlock()
+		}
 		time.Sleep(next.Sub(now))
 		synctest.Wait()
+		if both {
+			x.releasePoll()
+		}
 		x.releaseCleanup()
+	}
+}
+
+func (x *c28X) releasePoll() {
+	x.ln.mu.Lock()
+	x.ln.holdPoll = false
+	n := x.ln.pollPending
+	x.ln.pollPending = 0
+	g := x.ln.pollGate
+	x.ln.mu.Unlock()
+	for ; n > 0; n-- {
+		g <- struct{}{}
+		synctest.Wait()
+		x.out("info:poll_pass_held_at_coincident_tick")
 	}
 }
 
@@ -731,6 +809,17 @@ func (x *c28X) apply(o c28Op) error {
 	case "polltick":
 		x.ps.PollAllPeers(x.ctx)
 		synctest.Wait()
+	case "sweeptick":
+		// one cleanup sweep at this very instant (what the cleanup ticker does), between two other operations
+		x.ln.mu.Lock()
+		x.ln.manualSweep = true
+		x.ln.mu.Unlock()
+		_ = x.ps.VerifCleanupExpired(x.ctx)
+		synctest.Wait()
+		x.ln.mu.Lock()
+		x.ln.manualSweep = false
+		x.ln.mu.Unlock()
+		x.out("info:manual_sweep")
 	case "forcepoll":
 		x.setPhase("forced")
 		x.ps.ForcePollAllPeers(x.ctx)
@@ -800,7 +889,7 @@ func (x *c28X) apply(o c28Op) error {
 			case i == msgPeer:
 				x.violate("latest_poll_not_stored:version="+c28Rel(prior, incoming)+":msg="+msgKind+during,
 					fmt.Sprintf("%s sent %s with %s, there is no store record afterwards", name, msgKind, incoming))
-			case o.Kind != "clock":
+			case o.Kind != "clock" && o.Kind != "sweeptick":
 				x.violate("peer_removed_outside_cleanup:after="+o.class(), fmt.Sprintf("record of %s (cap %s) disappeared", name, mp.cap))
 			case x.m.conn[i] && ageAny > c28Expiry:
 				x.violate("expired_connected_peer_removed", fmt.Sprintf("%s was last heard %s ago and is connected, yet the cleanup removed its record (cap %s)", name, ageAny, mp.cap))
@@ -815,6 +904,9 @@ func (x *c28X) apply(o c28Op) error {
 			}
 			delete(x.m.stored, i)
 			continue
+		}
+		if o.Kind == "sweeptick" && !x.m.conn[i] && ageAny >= c28Expiry+c28TickStep {
+			x.violate("expired_disconnected_peer_kept", fmt.Sprintf("%s is disconnected and was last heard %s ago (expiry %s), yet a cleanup sweep left its record stored", name, ageAny, c28Expiry))
 		}
 		if o.Kind == "clock" {
 			sinceExpiry := ageAny - c28Expiry
@@ -1076,14 +1168,17 @@ func TestC28(t *testing.T) {
 	c28StoreGrid(&rep, filepath.Join(workDir, "c28-grid"))
 
 	type exploration struct {
-		label string
-		tier  string
-		depth int
+		label  string
+		tier   string
+		depth  int
+		prefix []c28Op
 	}
-	expl := []exploration{{"quick alphabet", "quick", 4}}
+	// the sweep exploration starts where peer P is stored, connected and expired (kept only because it is connected)
+	sweepPrefix := []c28Op{{Kind: "connect", Peer: 0}, {Kind: "poll", Peer: 0}, {Kind: "clock", D: 31 * time.Minute}}
+	expl := []exploration{{"quick alphabet", "quick", 4, nil}, {"sweep alphabet after [connect(P) poll(P) clock+31m]", "sweep", 6, sweepPrefix}}
 	budget := 45 * time.Second
 	if tier == "thorough" {
-		expl = []exploration{{"thorough alphabet", "thorough", 5}}
+		expl = []exploration{{"thorough alphabet", "thorough", 5, nil}, {"sweep alphabet after [connect(P) poll(P) clock+31m]", "sweep", 8, sweepPrefix}}
 		budget = 8 * time.Minute
 	}
 	const nw = 8
@@ -1108,12 +1203,13 @@ func TestC28(t *testing.T) {
 	for _, ex := range expl {
 		ops, pruned := c28Alphabet(ex.tier)
 		seen := map[string]bool{}
-		r0 := c28Exec(t, workers[0], nil)
+		r0 := c28Exec(t, workers[0], ex.prefix)
 		if r0.Intern != "" {
 			rep.Internal = append(rep.Internal, r0.Intern)
 		}
+		rep.Violations = append(rep.Violations, r0.Viol...)
 		seen[r0.Key], allSeen[r0.Key] = true, true
-		frontier := []item{{nil, r0.Key}}
+		frontier := []item{{ex.prefix, r0.Key}}
 		perDepth := []int{1}
 		completed := 0
 		for d := 0; d < ex.depth && len(frontier) > 0; d++ {
